@@ -344,3 +344,65 @@ func c07Prufer(N int) {
 
 func H_c07_prufer_q() { c07Prufer(5) }
 func H_c07_prufer_t() { c07Prufer(6) }
+
+// c07MulticodeBig: Multicode at orders where the 1-based byte labels get large
+// (n up to 255), edges among 3 symbolic-positioned vertices.
+func H_c07_multicodebig() {
+	ns := []int{16, 17, 18, 19, 64, 255}
+	n := ns[rt.Choice("n", len(ns))]
+	adj := make([][]bool, n)
+	for i := range adj {
+		adj[i] = make([]bool, n)
+	}
+	cand := []int{0, 1, n / 2, n - 3, n - 2, n - 1}
+	a := cand[rt.Choice("a", len(cand))]
+	b := cand[rt.Choice("b", len(cand))]
+	c := cand[rt.Choice("c", len(cand))]
+	rt.Assume(a < b && b < c)
+	if rt.ConcreteBool(rt.Bool("ab")) {
+		adj[a][b], adj[b][a] = true, true
+	}
+	if rt.ConcreteBool(rt.Bool("ac")) {
+		adj[a][c], adj[c][a] = true, true
+	}
+	if rt.ConcreteBool(rt.Bool("bc")) {
+		adj[b][c], adj[c][b] = true, true
+	}
+	enc := MulticodeEncode(vgSparse(adj))
+	var d *DenseGraph
+	p, msg := rt.Panics(func() { d = MulticodeDecode(enc) })
+	rt.Check(!p, "MulticodeDecode panics on MulticodeEncode output: "+msg)
+	if p {
+		return
+	}
+	// compare through the cached fields and the edge array directly (vgAgree is too slow at n = 255)
+	rt.Check(d.N() == n, "Multicode round trip: wrong order")
+	m := 0
+	for _, pr := range [][2]int{{a, b}, {a, c}, {b, c}} {
+		rt.Check(d.IsEdge(pr[0], pr[1]) == adj[pr[0]][pr[1]], "Multicode round trip: edge set differs")
+		if adj[pr[0]][pr[1]] {
+			m++
+		}
+	}
+	set := 0
+	for _, e := range d.Edges {
+		if e > 0 {
+			set++
+		}
+	}
+	rt.Check(len(d.Edges) == n*(n-1)/2 && set == m, "Multicode round trip: spurious or missing edges")
+	rt.Check(d.M() == m, "Multicode round trip: M() wrong")
+	deg := d.Degrees()
+	for v := 0; v < n; v++ {
+		want := 0
+		for u := 0; u < n; u++ {
+			if adj[v][u] {
+				want++
+			}
+		}
+		rt.Check(deg[v] == want, "Multicode round trip: Degrees() wrong")
+	}
+	gs := MulticodeDecodeMultiple(append(append([]byte{}, enc...), enc...))
+	rt.Check(len(gs) == 2, "MulticodeDecodeMultiple: wrong number of graphs")
+	rt.Reach("end")
+}
